@@ -102,4 +102,76 @@ theorem encode_iri_indices_eq (te : TermEnc) (iri : String)
             rw [hn2] at h4
             cases pEntry <;> cases nEntry <;> py_simp [swap, hz, h1, hp1, h2, hn1, h3, hp2, h4, hn2, execLike, optGet]
 
+
+/-- the literal message `encode_literal` fills in, read the way the model reads it: the rows and which member of the
+    `langtag`/`datatype` oneof ends up set -/
+def litView (r : Except PyErr (List Row × PLit) × TermEnc) : TermEnc × Except PyErr (List Row × WLitKind) :=
+  (r.2, r.1.map (fun p => (p.1, p.2.kind)))
+
+/-- `encode_literal`: the datatype entry row, the member of the oneof that is set last, and the encoder afterwards
+    (also on the conformance refusal of a disabled datatype table) are the model's `TermEnc.literal`; the lexical
+    form is stored as given. -/
+theorem encode_literal_eq (te : TermEnc) (lex : String) (lang dt : Option String)
+    (hd : te.datatypes.lookup.evicting = true → te.datatypes.lookup.data ≠ []) :
+    litView ((Gen.TermEncoder.encode_literal lex lang dt).exec te) = te.literal lang dt
+    ∧ ∀ p, ((Gen.TermEncoder.encode_literal lex lang dt).exec te).1 = .ok p → p.2.lex = lex := by
+  unfold Gen.TermEncoder.encode_literal TermEnc.literal litView
+  cases dt with
+  | none =>
+    cases lang with
+    | none => constructor <;> py_simp [optStrTruthy, optNatTruthy, PLit.kind, Except.map]
+    | some l =>
+      by_cases hl : l = "" <;> constructor <;>
+        py_simp [optStrTruthy, optNatTruthy, PLit.kind, PLit.setLang, Except.map, hl, optGet]
+  | some d =>
+    by_cases hg : (d != "" && d != XSD_STRING) = true
+    · have hg' : (d != "" && some d != some "http://www.w3.org/2001/XMLSchema#string") = true := by
+        simpa [XSD_STRING] using hg
+      by_cases hz : te.datatypes.lookup.maxSize = 0
+      · cases lang <;> constructor <;>
+          py_simp [optStrTruthy, optNatTruthy, PLit.kind, Except.map, hg, hg', hz]
+      · have h1 := entry_index_exec te.datatypes d hd
+        simp only [M.exec, ExceptT.run, StateT.run] at h1
+        cases hd1 : te.datatypes.entryIndex d with
+        | error err =>
+          rw [hd1] at h1
+          cases lang <;> constructor <;>
+            py_simp [optStrTruthy, optNatTruthy, PLit.kind, Except.map, hg, hg', hz, h1, hd1, execLike, optGet]
+        | ok r1 =>
+          obtain ⟨de, dEntry⟩ := r1
+          rw [hd1] at h1
+          have h2 := datatype_term_index_exec de d
+          simp only [M.exec, ExceptT.run, StateT.run] at h2
+          cases hd2 : de.datatypeTermIndex d with
+          | error err =>
+            rw [hd2] at h2
+            cases lang <;> cases dEntry <;> constructor <;>
+              py_simp [optStrTruthy, optNatTruthy, PLit.kind, Except.map, hg, hg', hz, h1, hd1, h2, hd2, execLike, optGet]
+          | ok r2 =>
+            obtain ⟨de', id⟩ := r2
+            rw [hd2] at h2
+            by_cases hi : id = 0
+            · cases lang with
+              | none =>
+                cases dEntry <;> constructor <;>
+                  py_simp [optStrTruthy, optNatTruthy, PLit.kind, Except.map, hg, hg', hz, h1, hd1, h2, hd2, execLike, optGet, hi]
+              | some l =>
+                by_cases hl : l = "" <;> cases dEntry <;> constructor <;>
+                  py_simp [optStrTruthy, optNatTruthy, PLit.kind, PLit.setLang, Except.map, hg, hg', hz, h1, hd1, h2, hd2, execLike, optGet, hi, hl]
+            · cases lang with
+              | none =>
+                cases dEntry <;> constructor <;>
+                  py_simp [optStrTruthy, optNatTruthy, PLit.kind, PLit.setDt, Except.map, hg, hg', hz, h1, hd1, h2, hd2, execLike, optGet, hi]
+              | some l =>
+                by_cases hl : l = "" <;> cases dEntry <;> constructor <;>
+                  py_simp [optStrTruthy, optNatTruthy, PLit.kind, PLit.setLang, PLit.setDt, Except.map, hg, hg', hz, h1, hd1, h2, hd2, execLike, optGet, hi, hl]
+    · have hg' : (d != "" && some d != some "http://www.w3.org/2001/XMLSchema#string") = false := by
+        simpa [XSD_STRING] using hg
+      have hg2 : (d != "" && d != XSD_STRING) = false := by simpa using hg
+      cases lang with
+      | none => constructor <;> py_simp [optStrTruthy, optNatTruthy, PLit.kind, Except.map, hg2, hg']
+      | some l =>
+        by_cases hl : l = "" <;> constructor <;>
+          py_simp [optStrTruthy, optNatTruthy, PLit.kind, PLit.setLang, Except.map, hl, optGet, hg2, hg']
+
 end Jelly.Translated
